@@ -107,7 +107,55 @@ def _wait_state(fut):
     return "res:" + repr(r)[:20]
 
 
-class CondEventReal:
+class _Fused:
+    """Placement of event-loop iterations between calls (used by the fused replays of C34 / C35).
+
+    The specifications are sequential: one action = one public call, and whether the loop runs
+    between two calls is not part of a behaviour.  `step` runs the loop to quiescence after every
+    call; `run_group` performs several calls back to back inside ONE loop iteration (no callback
+    runs between them); `advance_then` lets the clock reach the deadline and performs the calls from
+    a callback that runs in the same loop iteration as the timers due at that deadline (delay = 0,
+    right after them) or `delay` iterations later, i.e. while the clean-up callbacks of the expired
+    waiters are still queued.  A call with timeout 0 must be followed by a settle (the spec lets it
+    expire before the next call), which is the caller's business."""
+
+    EPS = 1e-12     # the follow-up callback is due this much after the deadline: same iteration, after the timers
+
+    def _finish_calls(self, errs):
+        self.env.settle()
+        if self.env.loop.uncaught:
+            errs.append("uncaught:" + str(self.env.loop.uncaught[0].get("message"))[:60])
+            del self.env.loop.uncaught[:]
+        return errs
+
+    def run_group(self, calls):
+        """calls: [(act, args)] performed without running the loop in between; returns their err names."""
+        errs = [self._call(a, args) for a, args in calls]
+        return self._finish_calls(errs)
+
+    def advance_then(self, d, calls, delay=0):
+        errs = []
+        loop = self.env.loop
+
+        def run():
+            for a, args in calls:
+                errs.append(self._call(a, args))
+
+        def hop(n):
+            if n <= 0:
+                run()
+            else:
+                loop.call_soon(hop, n - 1)
+        self.env.settle()
+        t = self.env.now + d + self.EPS
+        loop.call_at(t, hop, delay)
+        self.env.advance_to(t)
+        if len(errs) != len(calls):
+            errs.append("harness:follow-up-not-run")
+        return self._finish_calls(errs)
+
+
+class CondEventReal(_Fused):
     """Real tornado.locks.Condition / Event on the virtual loop.
 
     style: timeouts are passed alternately as datetime.timedelta and as absolute deadlines
@@ -185,8 +233,8 @@ class CondEventReal:
             import weakref
             self.refs[w] = weakref.ref(fut)
 
-    def step(self, act, args):
-        self.err = "none"
+    def _call(self, act, args):
+        """One public call (no loop iteration); returns the exception class name or "none"."""
         try:
             if act in ("wait", "ev_wait"):
                 w, to = args
@@ -200,24 +248,28 @@ class CondEventReal:
                 self.obj.set()
             elif act == "clear":
                 self.obj.clear()
-            elif act == "advance":
-                self.env.advance(args[0])
             elif act == "cancel":
                 f = self.refs[args[0]]()
                 if f is None:
-                    self.err = "lost-future"
-                else:
-                    f.cancel()
-                    del f
+                    return "lost-future"
+                f.cancel()
+                del f
             else:
                 raise ValueError(act)
         except Exception as e:      # any exception of the real call is an observation, never a harness crash
-            self.err = type(e).__name__
-        self.env.settle()
-        if self.env.loop.uncaught:
-            self.err = "uncaught:" + str(self.env.loop.uncaught[0].get("message"))[:60]
-            del self.env.loop.uncaught[:]
+            return type(e).__name__
+        return "none"
+
+    def observe(self, errs):
+        bad = [e for e in errs if e != "none"]
+        self.err = bad[0] if bad else "none"
         return self.proj()
+
+    def step(self, act, args):
+        if act == "advance":
+            self.env.advance(args[0])
+            return self.observe(self._finish_calls([]))
+        return self.observe(self.run_group([(act, args)]))
 
     def close(self):
         self.env.close()
@@ -240,7 +292,7 @@ def _op_state(f):
     return "ok"
 
 
-class QueueReal:
+class QueueReal(_Fused):
     """Real tornado.queues.Queue / LifoQueue / PriorityQueue on the virtual loop.
 
     The item of put call p with priority pr is the tuple (pr, p) - what Queue.tla calls <<pr, p>>.
@@ -302,8 +354,8 @@ class QueueReal:
         return {"pst": pst, "gst": gst, "gval": gval, "jst": jst, "qsize": size, "empty": empty, "full": full,
                 "err": self.err}
 
-    def step(self, act, args):
-        self.err = "none"
+    def _call(self, act, args):
+        """One public call (no loop iteration); returns the exception class name or "none"."""
         try:
             if act == "put":
                 p, pr, to = args
@@ -343,8 +395,6 @@ class QueueReal:
                 self.j[j] = "raised"
                 self.dl[("j", j)] = None if to == NOTO else to
                 self.j[j] = self.q.join(self._timeout(to))
-            elif act == "advance":
-                self.env.advance(args[0])
             elif act == "cancel_put":
                 self.p[args[0]].cancel()
             elif act == "cancel_get":
@@ -354,12 +404,19 @@ class QueueReal:
             else:
                 raise ValueError(act)
         except Exception as e:      # any exception of the real call is an observation, never a harness crash
-            self.err = type(e).__name__
-        self.env.settle()
-        if self.env.loop.uncaught:
-            self.err = "uncaught:" + str(self.env.loop.uncaught[0].get("message"))[:60]
-            del self.env.loop.uncaught[:]
+            return type(e).__name__
+        return "none"
+
+    def observe(self, errs):
+        """Projection after a settled group of calls; err is the last call's (an uncaught loop error wins)."""
+        self.err = errs[-1] if errs else "none"
         return self.proj()
+
+    def step(self, act, args):
+        if act == "advance":
+            self.env.advance(args[0])
+            return self.observe(self._finish_calls([]))
+        return self.observe(self.run_group([(act, args)]))
 
     def close(self):
         # retrieve exceptions so that dropping the futures does not log through the closed loop
